@@ -37,7 +37,7 @@ class C04(PropBase):
     coq_imports = "Graph.MixedGraph Graph.DSep Corr.C04"
     budgets = {"quick": 1600, "thorough": 16000}
     mismatch_is_failure = False
-    rule = ("random ADMGs (2..6 nodes; forced bows, bidirected-only nodes, chains below colliders), up to 14 (a,b,C) triples per graph, "
+    rule = ("random ADMGs (2..6 nodes; forced bows, bidirected-only nodes, chains below colliders), up to 14 (a,b,C) triples per graph (|C| up to all other nodes), a family of long mostly-bidirected paths with most inner nodes conditioned (runs of up to 6 conditioned colliders), "
             "both argument orders and a shuffled presentation of the graph; thorough adds every labelled ADMG on <=3 nodes with every triple. "
             "Non-trivial: a and b are joined in the skeleton by some path and C is non-empty or a bidirected edge exists; distinct = distinct (graph, a, b, C)")
     explanation = ("model of are_d_separated checked against y0 and, inside Coq on every valid case, against the executable textbook "
@@ -65,12 +65,30 @@ class C04(PropBase):
                 cases.extend({"g": g, "a": a, "b": b, "C": C} for a, b, C in triples)
         nmax = 6 if tier == "quick" else 7
         while len(cases) < n:
+            if rng.random() < 0.06:
+                # a long path between the two end nodes whose links are mostly bidirected, with most inner nodes conditioned on: runs of 1..6
+                # conditioned colliders in a row (the path is open exactly when every inner collider is in C or has a descendant there)
+                k = rng.randint(3, 7)
+                ids = rng.sample(range(10), min(10, k + 1 + rng.randint(0, 2)))
+                path, extra = ids[:k + 1], ids[k + 1:]
+                di, bi = [], []
+                for u, v in zip(path, path[1:]):
+                    r = rng.random()
+                    (bi if r < 0.7 else di).append([u, v] if r < 0.85 else [v, u])
+                for x in extra:
+                    di.append([rng.choice(path[1:-1]), x])
+                g = {"nodes": list(ids), "dir": di, "bid": bi}
+                rng.shuffle(g["nodes"])
+                for _ in range(4):
+                    C = [x for x in path[1:-1] if rng.random() < 0.85] + [x for x in extra if rng.random() < 0.3]
+                    cases.append({"g": g, "a": path[0], "b": path[-1], "C": C})
+                continue
             g = GG.rand_admg_big(rng) if rng.random() < 0.04 else GG.rand_admg(rng, 2, nmax)
             ns = g["nodes"]
             for _ in range(14):
                 a, b = rng.sample(ns, 2)
                 rest = [x for x in ns if x not in (a, b)]
-                C = GG.rand_subset(rng, rest, 0, 3)
+                C = GG.rand_subset(rng, rest, 0, 3 if rng.random() < 0.7 else len(rest))
                 r = rng.random()
                 if r < 0.02:
                     C = C + [9]
